@@ -21,6 +21,9 @@ pub struct Case {
     pub instances: u8,
     /// 0 normal, 1 prover executable missing, 2 prover exits without reading its input
     pub mode: u8,
+    /// Some(choices): an external-equivalence task (program or specification, user guide, proof
+    /// outline with a lemma and an inductive lemma) instead of the strong-equivalence pair
+    pub external: Option<Vec<u16>>,
 }
 
 pub struct C10;
@@ -63,19 +66,21 @@ impl Check for C10 {
             gt::choices(40),
             0u8..=8,
             prop_oneof![10 => Just(0u8), 1 => Just(1u8), 1 => Just(2u8)],
+            prop_oneof![2 => Just(None), 1 => gt::choices(160).prop_map(Some)],
         )
-            .prop_map(|(left, right, flags, plan, instances, mode)| Case {
+            .prop_map(|(left, right, flags, plan, instances, mode, external)| Case {
                 left,
                 right,
                 flags,
                 plan,
                 instances,
                 mode,
+                external,
             })
             .boxed()
     }
     fn rule(&self) -> String {
-        "a strong-equivalence task (1-12 problems) is first run with --no-proof-search --save-problems; then `verify` runs with a stand-in `vampire` first in PATH that stores its stdin and answers by plan (keyed by the SHA-256 of the problem text): each problem gets one of {Theorem, CounterSatisfiable, ContradictoryAxioms, Timeout, MemoryOut, GaveUp, Error, unknown status word, no status line, non-UTF-8 output, Theorem with non-zero exit, no status with non-zero exit, killed by signal} and a delay of 0-40 ms, with 1-8 (or auto) prover instances; half of the plans have zero or exactly one non-Theorem outcome at a generated position; plus runs with the executable missing and with a prover that exits without reading; oracle: every stored stdin is byte-identical to a saved file and the multisets agree (each problem handed over exactly once), the files saved by both runs agree, problem names are distinct, stdout says Success iff every planned outcome prints SZS status Theorem, otherwise Failure, every named status line matches the plan, exit status 0; non-trivial = at least 2 problems and at least 2 instances with zero or one non-Theorem outcome; distinct by problems + plan + instances".into()
+        "a strong-equivalence task over two random programs, or (1 in 3) an external-equivalence task (program or specification, user guide, 2 in 3 with a proof outline of lemmas and an inductive lemma), 1-20 problems, is first run with --no-proof-search --save-problems; then `verify` runs with a stand-in `vampire` first in PATH that stores its stdin and answers by plan (keyed by the SHA-256 of the problem text): each problem gets one of {Theorem, CounterSatisfiable, ContradictoryAxioms, Timeout, MemoryOut, GaveUp, Error, unknown status word, no status line, non-UTF-8 output, Theorem with non-zero exit, no status with non-zero exit, killed by signal} and a delay of 0-40 ms, with 1-8 (or auto) prover instances; half of the plans have zero or exactly one non-Theorem outcome at a generated position; plus runs with the executable missing and with a prover that exits without reading; oracle: every stored stdin is byte-identical to a saved file and the multisets agree (each problem handed over exactly once), the files saved by both runs agree, problem names are distinct, stdout says Success iff every planned outcome prints SZS status Theorem, otherwise Failure, every named status line matches the plan, exit status 0; non-trivial = at least 2 problems and at least 2 instances with zero or one non-Theorem outcome; distinct by problems + plan + instances".into()
     }
     fn run(&self, case: &Case) -> Outcome {
         let Some(bin) = cli::anthem_bin() else {
@@ -89,8 +94,51 @@ impl Check for C10 {
         };
         let pa = dir.join("a.lp");
         let pb = dir.join("b.lp");
-        std::fs::write(&pa, safe_print::asp_program(&case.left, &Style::plain())).unwrap();
-        std::fs::write(&pb, safe_print::asp_program(&case.right, &Style::plain())).unwrap();
+        let mut inputs: Vec<String> = vec![];
+        let mut task_text = String::new();
+        match &case.external {
+            None => {
+                std::fs::write(&pa, safe_print::asp_program(&case.left, &Style::plain())).unwrap();
+                std::fs::write(&pb, safe_print::asp_program(&case.right, &Style::plain())).unwrap();
+                inputs.push(pa.to_string_lossy().to_string());
+                inputs.push(pb.to_string_lossy().to_string());
+            }
+            Some(choices) => {
+                let mut c = Chooser::new(choices.clone());
+                let names = gt::Names::clean(&mut c);
+                let task = gt::external_task_with(&mut c, names);
+                match (&task.left_program, &task.left_spec) {
+                    (Some(p), _) => {
+                        std::fs::write(&pa, safe_print::asp_program(p, &Style::plain())).unwrap();
+                        inputs.push(pa.to_string_lossy().to_string());
+                    }
+                    (_, Some(sp)) => {
+                        let f = dir.join("s.spec");
+                        std::fs::write(&f, safe_print::specification(sp, &Style::plain())).unwrap();
+                        inputs.push(f.to_string_lossy().to_string());
+                    }
+                    _ => {}
+                }
+                std::fs::write(&pb, safe_print::asp_program(&task.right, &Style::plain())).unwrap();
+                inputs.push(pb.to_string_lossy().to_string());
+                let ug = dir.join("u.ug");
+                std::fs::write(&ug, safe_print::user_guide(&task.user_guide, &Style::plain())).unwrap();
+                inputs.push(ug.to_string_lossy().to_string());
+                if c.flag(2, 3) {
+                    let i = &task.names.inputs[0].0;
+                    let po = dir.join("o.po");
+                    let mut text = format!("lemma(forward)[l1]: forall X ({i}(X) -> {i}(X)).\nlemma: exists X ({i}(X)) or not exists X ({i}(X)).\n");
+                    if c.flag(1, 2) {
+                        text.push_str(&format!("inductive-lemma(backward)[il]: forall N$i (N$i >= 0 -> ({i}(N$i) or not {i}(N$i))).\n"));
+                    }
+                    std::fs::write(&po, &text).unwrap();
+                    inputs.push(po.to_string_lossy().to_string());
+                    task_text.push_str(&format!("\n  proof outline: {text}"));
+                }
+                task_text = format!("{}{task_text}", crate::checks::problems::describe_external(&task));
+            }
+        }
+        let equivalence = if case.external.is_some() { "external" } else { "strong" };
         let saved = dir.join("saved");
         let saved2 = dir.join("saved2");
         let stubdir = dir.join("stub");
@@ -99,10 +147,9 @@ impl Check for C10 {
             std::fs::create_dir_all(d).unwrap();
         }
         let base_args = |out: &std::path::Path| -> Vec<String> {
-            let mut a: Vec<String> = vec!["verify".into(), "--equivalence".into(), "strong".into(), "--save-problems".into(), out.to_string_lossy().to_string()];
-            a.extend(case.flags.iter().map(|s| s.to_string()));
-            a.push(pa.to_string_lossy().to_string());
-            a.push(pb.to_string_lossy().to_string());
+            let mut a: Vec<String> = vec!["verify".into(), "--equivalence".into(), equivalence.into(), "--save-problems".into(), out.to_string_lossy().to_string()];
+            a.extend(case.flags.iter().filter(|f| !(case.external.is_some() && f.contains("formula-representation"))).map(|s| s.to_string()));
+            a.extend(inputs.iter().cloned());
             a
         };
         let mut first = base_args(&saved);
@@ -162,9 +209,12 @@ impl Check for C10 {
             Duration::from_secs(120),
         );
         let description = format!(
-            "left: {}\n  right: {}\n  flags: {:?} instances: {} mode: {}\n  plan: {:?}",
-            safe_print::asp_program(&case.left, &Style::plain()),
-            safe_print::asp_program(&case.right, &Style::plain()),
+            "{}\n  flags: {:?} instances: {} mode: {}\n  plan: {:?}",
+            if case.external.is_some() {
+                task_text.clone()
+            } else {
+                format!("left: {}\n  right: {}", safe_print::asp_program(&case.left, &Style::plain()), safe_print::asp_program(&case.right, &Style::plain()))
+            },
             case.flags,
             case.instances,
             case.mode,
@@ -241,9 +291,11 @@ impl Check for C10 {
         let key = hash64(&format!("{description}"));
         cleanup(
             Outcome::pass(nontrivial, key)
+                .readable(description.clone())
                 .label(format!("problems={}", files.len().min(12)))
                 .label(format!("instances={}", case.instances))
                 .label(format!("mode={}", case.mode))
+                .label(format!("task={equivalence}"))
                 .label(format!("non-theorem={}", nontheorem.min(3)))
                 .label(format!("reported={}", if success { "success" } else { "failure" })),
         )
@@ -253,6 +305,7 @@ impl Check for C10 {
             "left": safe_print::asp_program(&case.left, &Style::plain()),
             "right": safe_print::asp_program(&case.right, &Style::plain()),
             "flags": case.flags, "plan": case.plan, "instances": case.instances, "mode": case.mode,
+            "external": case.external,
         })
     }
     fn from_replay(&self, j: &Value) -> Option<Case> {
@@ -263,6 +316,7 @@ impl Check for C10 {
             plan: j["plan"].as_array()?.iter().map(|x| x.as_u64().unwrap() as u16).collect(),
             instances: j["instances"].as_u64()? as u8,
             mode: j["mode"].as_u64()? as u8,
+            external: j.get("external").and_then(|e| e.as_array()).map(|a| a.iter().map(|x| x.as_u64().unwrap() as u16).collect()),
         })
     }
 }
